@@ -127,6 +127,17 @@ type Ctx struct {
 	InhStop    bool // a stop had been requested on an ancestor when this context was created
 	Parent     *Ctx
 	Depth      int // 0 = root
+
+	// Inh[r]: the hard limit on r is not this context's own but what the
+	// enclosing context had left when this one was created (a requested limit
+	// counts as own only if it is strictly smaller than that).
+	Inh [NRes]bool
+	// How the context was terminated, if it was: by reaching the hard limit
+	// on KillRes (KillByLimit), which may be an inherited one (KillInh), or
+	// by a forced kill (KillByLimit false).
+	KillByLimit bool
+	KillRes     Res
+	KillInh     bool
 }
 
 func newCtx() *Ctx {
@@ -231,6 +242,7 @@ func (s *Stack) Push(d Def, parentUsedMillis uint64) *Ctx {
 			panic(fmt.Sprintf("ctxref: push under an exhausted parent (%s remaining %s)", r, rem))
 		}
 		c.Hard[r] = Min(rem, L(d.Hard[r]))
+		c.Inh[r] = !rem.IsInf() && c.Hard[r].Big().Cmp(rem.Big()) == 0
 		c.Soft[r] = Min(Min(c.Hard[r], p.Soft[r]), L(d.Soft[r]))
 	}
 	c.Flags = p.Flags | d.Flags | Implied(d)
@@ -260,6 +272,7 @@ func (c *Ctx) require(r Res, a *big.Int) Outcome {
 	// an overflowing sum is larger than every finite limit
 	if c.Hard[r].Reached(sum) {
 		c.Status = Killed
+		c.KillByLimit, c.KillRes, c.KillInh = true, r, c.Inh[r]
 		return Outcome{Killed: true, Overflow: over}
 	}
 	if over {
@@ -280,14 +293,33 @@ func (s *Stack) WouldOverflow(r Res, a uint64) bool {
 	return over
 }
 
-// Release gives back a units of memory (a <= used is the caller's duty).
-func (s *Stack) Release(a uint64) {
-	c := s.Cur
-	x := new(big.Int).SetUint64(a)
-	if x.Cmp(c.Used[Mem]) > 0 {
-		panic("ctxref: release of more than was required")
+// Release gives back a units of memory. What exceeds the current context's
+// consumption was required in an enclosing context and is given back there,
+// and so on up the chain (each level saturates at 0; anything left over at
+// the root is dropped). The result is what was subtracted at each depth.
+func (s *Stack) Release(a uint64) (delta map[int]*big.Int) {
+	delta = map[int]*big.Int{}
+	rest := new(big.Int).SetUint64(a)
+	for c := s.Cur; c != nil && rest.Sign() > 0; c = c.Parent {
+		d := new(big.Int).Set(rest)
+		if d.Cmp(c.Used[Mem]) > 0 {
+			d.Set(c.Used[Mem])
+		}
+		c.Used[Mem] = new(big.Int).Sub(c.Used[Mem], d)
+		rest.Sub(rest, d)
+		delta[c.Depth] = d
 	}
-	c.Used[Mem] = new(big.Int).Sub(c.Used[Mem], x)
+	return delta
+}
+
+// ChainUsed is the memory consumption summed over the current context and
+// all enclosing ones.
+func (s *Stack) ChainUsed(r Res) *big.Int {
+	sum := new(big.Int)
+	for c := s.Cur; c != nil; c = c.Parent {
+		sum.Add(sum, c.Used[r])
+	}
+	return sum
 }
 
 // StopSoft requests a stop: the current context becomes due.
@@ -308,6 +340,10 @@ type PopResult struct {
 	Ctx          *Ctx // the finished context (status no longer live)
 	ParentKilled bool // charging the parent reached one of its hard limits
 	Overflow     [NRes]bool
+	// Propagated: the context had been terminated by a limit it inherited, so
+	// the enclosing context (now current) is terminated as well: the limit
+	// was its own or, in turn, one it inherited.
+	Propagated bool
 }
 
 // PopWouldOverflow reports, per resource, whether charging the parent with
@@ -325,7 +361,13 @@ func (s *Stack) PopWouldOverflow() (o [NRes]bool) {
 
 // Pop ends the current context: a live context is done; its consumption of
 // cpu and memory is charged to the parent. Returns nil at the root.
-func (s *Stack) Pop() *PopResult {
+//
+// managed says who ends the context: true for Thread.CallContext (pcall,
+// runtime.callcontext), which makes the termination by an inherited limit
+// reach the context that owns the limit; false for an embedder that pushed
+// the context itself with PushContext and decides on its own what the
+// termination means for the enclosing context.
+func (s *Stack) Pop(managed bool) *PopResult {
 	c := s.Cur
 	if c.Parent == nil {
 		return nil
@@ -343,6 +385,11 @@ func (s *Stack) Pop() *PopResult {
 		}
 	}
 	s.Cur = p
+	if managed && c.Status == Killed && c.KillByLimit && c.KillInh && !res.ParentKilled && p.Status == Live {
+		p.Status = Killed
+		p.KillByLimit, p.KillRes, p.KillInh = true, c.KillRes, p.Inh[c.KillRes]
+		res.Propagated = true
+	}
 	return res
 }
 
